@@ -184,6 +184,12 @@ impl Report {
         let mut g = self.inner.lock().unwrap();
         if let Some(v) = g.violations.get_mut(sig) {
             v.count += 1;
+            // an occurrence reported without a witness (a cached signature) must not shadow the
+            // one that carries it
+            if v.witness.is_null() && !witness.is_null() {
+                v.witness = witness;
+                v.detail = detail.to_string();
+            }
             return;
         }
         if g.violations.len() >= MAX_DISTINCT_VIOLATIONS {
